@@ -85,8 +85,55 @@ def focus_for(prop, budget):
     if prop == "C08":
         return [(has(*NOCTX, '"read"', "Enter", "ReEnter", "Exit", "allow_write"), int(budget * 0.7)), (anything, int(budget * 0.3))]
     if prop == "C11":
-        return [(has('"duplicate"', '"full"', '"set"', "SetOk", "SetNo"), budget // 2), (ok_edges, budget // 3), (anything, budget // 6)]
+        # (reader calls are offered by the `modes` model only: there they get a third of the budget -
+        # presence checks, count and getters asked with no context open, after the file was changed
+        # through the other object)
+        return [(has('"duplicate"', '"full"', '"set"', "SetOk", "SetNo"), budget // 2), (has('"read"'), budget // 3),
+                (ok_edges, budget // 3), (anything, budget // 6)]
     return [(ok_edges, int(budget * 0.7)), (has('"hole"'), None), (anything, int(budget * 0.3))]
+
+
+def stale_reader_paths(init, adj):
+    """Directed paths through the `modes` graph: presence, count and getters are asked with no context
+    open, the file is then changed inside a write context (the driver alternates between two objects
+    whenever both are closed, so the change goes through the other one), and the same questions are
+    asked again - several times, so that both objects are asked."""
+    def step(s, pred):
+        for d, lab in adj.get(s, ()):
+            if pred(lab):
+                return d, lab
+        return None
+    reads = [lambda l, w=w: '"read"' in l and f'what |-> "{w}"' in l for w in ("has", "len", "getter", "get_type")]
+    muts = [lambda l: l.startswith("Ok(") and '"add"' in l and "t |-> 1," in l,
+            lambda l: l.startswith("Ok(") and '"remove"' in l and "t |-> 1]" in l,
+            lambda l: l.startswith("SetOk(1"),
+            lambda l: l.startswith("Ok(") and '"replace"' in l and "t |-> 1," in l]
+    for s1, l0 in adj.get(init, ()):
+        if not l0.startswith("Setup"):
+            continue
+        for mut in muts:
+            labs, s = [l0], s1
+            ok = True
+            for r in reads[:2]:
+                nx = step(s, r)
+                if nx:
+                    s = nx[0]
+                    labs.append(nx[1])
+            for pred in (lambda l: "allow_write" in l, lambda l: l == "Enter", mut, lambda l: l == "Exit"):
+                nx = step(s, pred)
+                if not nx:
+                    ok = False
+                    break
+                s = nx[0]
+                labs.append(nx[1])
+            if not ok:
+                continue
+            for r in reads + reads[:3]:
+                nx = step(s, r)
+                if nx:
+                    s = nx[0]
+                    labs.append(nx[1])
+            yield labs
 
 
 def execute_tour(name, labs, conc_seed, workdir, descs):
@@ -205,6 +252,8 @@ def run_campaign(run, name, budget, seed, focus_prop, exhaustive_tour=False, mc=
         if fresh:
             gens.append(tours.tours(init, adj, rng, max_len=8,
                                     select=lambda s_, d_, lab: s_ in fresh and '"duplicate"' in lab and '"add"' in lab))
+    if not exhaustive_tour and name == "modes":
+        gens.append(stale_reader_paths(init, adj))
     k = 0
     for gi, g in enumerate(gens):
         for labs in g:
